@@ -71,9 +71,9 @@ macro_rules! fam_contract {
 #[macro_export]
 macro_rules! fam_emis {
     ($P:literal, $p:expr, $ast:expr, $x:expr, $t:expr) => {
-        $crate::fam_emis!($P, $p, $ast, $x, $t, [0u8], false, false)
+        $crate::fam_emis!($P, $p, $ast, $x, $t, [0u8], false, false, false)
     };
-    ($P:literal, $p:expr, $ast:expr, $x:expr, $t:expr, $perms:expr, $content:expr, $cfail:expr) => {{
+    ($P:literal, $p:expr, $ast:expr, $x:expr, $t:expr, $perms:expr, $content:expr, $cfail:expr, $always:expr) => {{
         #[allow(unused_imports)]
         use $crate::errs::MkErr;
         let r = $p.parse($x);
@@ -138,9 +138,9 @@ macro_rules! fam_emis {
                 }
             }
         }
-        $crate::cover!("cover:accept-clean", out.is_some() && errs.is_empty());
+        $crate::cover!("cover:accept", out.is_some());
         $crate::cover!("cover:accept-with-errors", out.is_some() && !errs.is_empty());
-        $crate::cover!("cover:reject", out.is_none());
+        $crate::cover!("cover:reject", out.is_none() || $always);
     }};
 }
 
